@@ -43,7 +43,7 @@ def check_pins(ctx, pgpy, pins, who):
 
 
 PINS.update({
-    'PGPKey.parse': '1c0ae4e0bd5faf63', 'PGPKey.__bytearray__': 'cf5c4a72b4df4a15', 'PGPKey.__or__': 'e00a8edb5482499b', 'PGPKey.__copy__': 'd0947399d9c62607',
+    'PGPKey.parse': '40de9c3dbac1cad6', 'PGPKey.__bytearray__': 'cf5c4a72b4df4a15', 'PGPKey.__or__': 'e00a8edb5482499b', 'PGPKey.__copy__': 'd0947399d9c62607',
     'PGPKey.pubkey': '8ca1b2d84e32a4d4', 'PGPUID.__or__': 'ae8d18457c0f6909', 'PGPUID.__copy__': '2a1154b2ea7b17af', 'PGPUID.__lt__': 'f0e5e2eaa2fbafb7',
     'PGPUID.selfsig': '111019c3241e9c1e', 'PGPUID.is_primary': '2717b1134fb7e336', 'PGPSignature.__lt__': '557ce558d85c25f6',
     'PGPSignature.exportable': '28b877b70aaa4ac8', 'PGPSignature.__copy__': '1be2415cd6075ead',
@@ -175,7 +175,12 @@ class World:
         return 'K%d.%d(%s)(%s)(%s)' % (self.label(k), k.is_public, self.items(k._signatures), uids, subs)
 
     def export_s(self, k):
-        toks = [self.tok_of.get(p, '?' + p[:6].hex()) for p in split_packets(bytes(k))]
+        b = bytes(k)
+        try:
+            pk = split_packets(b)
+        except (ValueError, IndexError):
+            return 'UNSPLITTABLE:' + b[:40].hex()          # bytes(key) is not a sequence of packets
+        toks = [self.tok_of.get(p, '?' + p[:6].hex()) for p in pk]
         return ','.join(toks) or '-'
 
 
@@ -200,7 +205,7 @@ def gen_blob(rng, thorough=False):
     toks = []
     nkeys = rng.choice((1, 1, 1, 2, 2, 3))
     prim_labels = rng.sample(range(World.NED), nkeys)
-    if rng.random() < 0.04:
+    if rng.random() < 0.10:
         prim_labels[-1] = prim_labels[0]              # the same key twice in one blob
     # few distinct creation times -> many ties
     times = [rng.choice((100, 100, 101, 102, 200)) for _ in range(3)] + [rng.randrange(50, 300)]
@@ -251,7 +256,7 @@ def gen_blob(rng, thorough=False):
     return toks
 
 
-EXC = {'AttributeError': 'ERR:AttributeError', 'StopIteration': 'ERR:StopIteration', 'TypeError': 'ERR:TypeError'}
+EXC = {'AttributeError': 'ERR:AttributeError', 'TypeError': 'ERR:TypeError'}
 
 
 def nonexportable_serials(toks):
@@ -282,6 +287,17 @@ def impl_full(w, k):
 
 
 def run_case(ctx, w, d, toks, suite='packets'):
+    """one case; an exception anywhere in the comparison is a failure of THIS input (never a harness crash)"""
+    try:
+        run_case_(ctx, w, d, toks, suite)
+    except Exception as ex:
+        from .common import DriverError
+        if isinstance(ex, DriverError):
+            raise
+        ctx.fail(suite, 'exception while examining the imported key: %s: %s' % (type(ex).__name__, str(ex)[:120]), {'suite': suite, 'tokens': toks})
+
+
+def run_case_(ctx, w, d, toks, suite='packets'):
     pgpy = w.pgpy
     case = {'suite': suite, 'tokens': toks}
     blob = b''.join(w.bytes_of(t) for t in toks)
@@ -343,6 +359,19 @@ def direct_oracles(ctx, w, k, case, suite, drop, keep_true):
     exact = not any(w.serial(s) in drop and s.signer == kid for u in k._uids for s in u._signatures)
     norm = (lambda v: v) if exact else unordered
     b1 = bytes(k)
+    # bytes(key) itself: the key packet, then exactly the exportable signature packets of the key, of each user id, of each subkey
+    exp_toks = w.export_s(k).split(',')
+    v = tops_view(w, k, drop)
+    want_toks = ['K1%d.%d' % (v[1], v[0])] + ['S%d' % x for x in v[2]]
+    for (isu, cid, ss) in v[3]:
+        want_toks += ['U%d.%d' % (isu, cid)] + ['S%d' % x for x in ss]
+    for (lab, ss) in v[4]:
+        want_toks += ['K0%d.%d' % (v[1], lab)] + ['S%d' % x for x in ss]
+    if exp_toks != want_toks:
+        leaked = sorted(int(t[1:]) for t in exp_toks if t[:1] == 'S' and t[1:].isdigit() and int(t[1:]) in drop)
+        ctx.fail(suite, 'bytes(key) is not: key, its exportable signatures, each user id and subkey with its exportable signatures'
+                 + (' (non-exportable signature(s) %s exported)' % leaked if leaked else ''),
+                 dict(case, key=w.label(k), got=','.join(exp_toks)[:300], want=','.join(want_toks)[:300]))
     k2 = pgpy.PGPKey.from_blob(b1)[0]
     want = tops_view(w, k, drop)
     got = tops_view(w, k2)
@@ -377,10 +406,11 @@ def run(ctx):
     try:
         for toks in CORPUS:
             run_case(ctx, w, d, toks, 'corpus')
-        n = ctx.n(450, 9000)
+        n = ctx.n(400, 9000)
         for _ in range(n):
             run_case(ctx, w, d, gen_blob(ctx.rng, not ctx.quick))
         regressions(ctx, w, d)
+        regression_repeated_key(ctx, w, d)
         from . import c15
         c15.history_keys_for_c14(ctx, n=ctx.n(60, 1000))
     finally:
@@ -389,6 +419,13 @@ def run(ctx):
 
 # hand-written shapes that run first: ties, explicit exportable, embedded cross-signatures, trust, several keys
 CORPUS = [
+    # direct-key signatures by a third party with explicit exportable 0 / 1 (and a non-exportable key revocation by the key)
+    ['K:1:1:1:0', 'S:1:3:31:100:0:0', 'S:2:3:31:100:1:0', 'S:3:0:31:101:n:0', 'S:4:0:32:102:0:0', 'U:1:1', 'S:5:0:19:100:n:1',
+     'K:0:1:1:1', 'S:6:0:24:100:0:0:E,7,1,25,100,n', 'S:8:0:24:101:n:0:E,9,1,25,101,0'],
+    ['K:1:0:1:2', 'S:1:4:31:100:0:0', 'K:0:0:0:10', 'S:2:2:24:100:n:0', 'S:3:5:31:100:0:0'],
+    # A, B, A again: what follows the second A belongs to A (repair 84a9ce0)
+    ['K:1:1:1:0', 'U:1:1', 'S:1:0:19:100:n:0', 'K:1:1:1:1', 'U:1:2', 'K:1:1:1:0', 'S:2:0:31:100:n:0', 'U:1:3', 'S:3:0:19:101:n:1', 'K:0:1:1:4',
+     'S:4:0:24:100:n:0'],
     ['K:1:1:1:0', 'U:1:1', 'S:1:0:19:100:n:1', 'S:2:3:16:100:n:0', 'S:3:0:19:100:n:0'],
     ['K:1:0:1:0', 'T', 'S:1:0:32:100:n:0', 'T', 'U:1:1', 'T', 'S:2:0:19:100:1:0', 'T', 'S:3:4:16:100:0:0', 'U:0:2', 'S:4:0:19:90:n:0',
      'K:0:0:1:1', 'S:5:0:24:100:n:0:E,6,1,25,100,n:E,7,1,25,99,n', 'S:8:0:40:100:n:0'],
@@ -420,6 +457,20 @@ def regressions(ctx, w, d):
     old = d.call('import_f2', *toks).split('|')
     if w.export_s(k) == old[1] or 'S2' not in w.export_s(k):
         ctx.fail(suite, 'explicit exportable=True signature dropped on re-export (F2)', {'suite': suite, 'tokens': toks})
+
+
+def regression_repeated_key(ctx, w, d):
+    suite = 'regression'
+    toks = ['K:1:1:1:0', 'U:1:1', 'K:1:1:1:1', 'U:1:2', 'K:1:1:1:0', 'U:1:3', 'S:1:0:19:100:n:0', 'K:0:1:1:4', 'S:2:0:24:100:n:0']
+    ctx.case(suite, 'repeated-key', sample={'tokens': toks})
+    blob = b''.join(w.bytes_of(t) for t in toks)
+    _, ks = w.pgpy.PGPKey.from_blob(blob)
+    got = ' '.join(w.key_s(k) for k in ks.values())
+    old = d.call('import_dup', *toks)
+    new = ' '.join(m.split('|')[0] for m in d.call('import', *toks).split(' '))
+    if got != new or got == old or new == old:
+        ctx.fail(suite, 'a blob that repeats a key: user id / subkey after the second occurrence are not attached to that key',
+                 {'suite': suite, 'tokens': toks, 'got': got, 'model': new, 'before_repair': old})
 
 
 def replay(ctx, case):
